@@ -691,7 +691,18 @@ def g_nfah_ops(rng):
         i = rng.randrange(n)
         j = rng.randrange(n)
         if c < 0.16:
-            steps.append(f"union:{i}:{j}")
+            if rng.random() < 0.35 and i < 4 and j < 4:
+                # caller-supplied pre-filled maps: injective, disjoint images (what a caller chaining unions supplies)
+                defs = [A, B, B2, C]
+                ka = [q for q in defs[i].states() if rng.random() < 0.6]
+                kb = [q for q in defs[j].states() if rng.random() < 0.6]
+                vals = rng.sample(range(0, 14), min(14, len(ka) + len(kb)))
+                ka, kb = ka[: len(vals)], kb[: max(0, len(vals) - len(ka))]
+                ml = dict(zip(ka, vals[: len(ka)]))
+                mr = dict(zip(kb, vals[len(ka):]))
+                steps.append(f"unionpre:{i}:{j}:{map_tok(ml)}:{map_tok(mr)}")
+            else:
+                steps.append(f"union:{i}:{j}")
         elif c < 0.36:
             steps.append(f"uniondisj:0:{rng.choice([2, 3])}")
         elif c < 0.54:
@@ -753,7 +764,7 @@ def g_nfah_hist(rng):
 
 
 # ---------------------------------------------------------------- bounding product growth in histories
-_CREATING = {"def", "defo", "new", "copy", "copynt", "copynf", "move", "union", "uniondisj", "isect", "isectbu", "rev", "unreach",
+_CREATING = {"def", "defo", "new", "copy", "copynt", "copynf", "move", "union", "unionpre", "uniondisj", "isect", "isectbu", "rev", "unreach",
              "useless", "cand", "reduce", "reindex", "reidx", "totd"}
 
 
@@ -814,7 +825,7 @@ def cap_products(case, sep, cap, max_states=150, max_trans=2500):
                 st = sep.join(["useless", f[1]])
                 l, ns, nt = lv(1), sz(1)[0], sz(1)[1]
             level.append(l); size.append((ns, nt))
-        elif op in ("union", "uniondisj"):
+        elif op in ("union", "unionpre", "uniondisj"):
             level.append(max(lv(1), lv(2))); size.append((sz(1)[0] + sz(2)[0], sz(1)[1] + sz(2)[1]))
         elif op in ("assign", "moveassign", "massign"):
             if ix(1) is not None:
